@@ -749,6 +749,41 @@ pub fn run(tier: Tier, replay: Option<&str>) {
         states.fetch_add(n, Ordering::Relaxed);
     });
 
+    // (c2b) every defined fixed-length command, alone: each payload octet in turn takes every value 0..=255 while the others
+    // hold one of the three fillers (accessors that relate two fields - a frequency of zero and an inverted data-rate
+    // range, a counter window that ends before it starts - see each combination with a neutral partner)
+    let one_byte: Vec<(&str, u8, usize)> = SETS.iter().flat_map(|s| table(s).into_iter().filter_map(move |(c, l)| l.filter(|l| *l > 0).map(|l| (*s, c, l)))).collect();
+    one_byte.par_iter().for_each(|&(set, cid, l)| {
+        let mut n = 0u64;
+        for fk in 0..3u8 {
+            for pos in 0..l {
+                for val in 0..=255u8 {
+                    let mut d = vec![cid];
+                    d.extend(filler(fk, l));
+                    d[1 + pos] = val;
+                    go(set, &d);
+                    n += 1;
+                    // ... and with a second octet set as well (every pair of positions, values from a boundary set)
+                    if val == 0 || val == 1 || val == 0x0F || val == 0x50 || val == 0x05 || val == 0xFF {
+                        for pos2 in 0..l {
+                            if pos2 == pos {
+                                continue;
+                            }
+                            for v2 in [0u8, 1, 0x05, 0x50, 0x80, 0xFF] {
+                                let mut e = d.clone();
+                                e[1 + pos2] = v2;
+                                go(set, &e);
+                                n += 1;
+                            }
+                        }
+                    }
+                }
+            }
+        }
+        ctx.tick(n);
+        states.fetch_add(n, Ordering::Relaxed);
+    });
+
     // (c3) variable-length commands: every status byte / every length 0..=255
     let var_jobs: Vec<(&str, u8)> = vec![("dut-down", 7), ("dut-down", 8), ("dut-up", 8), ("mc-up", 1)];
     var_jobs.par_iter().for_each(|&(set, cid)| {
@@ -850,7 +885,7 @@ pub fn run(tier: Tier, replay: Option<&str>) {
         "samples": samples,
         "evaluations": ctx.evals(),
         "distinct_nontrivial": states.load(Ordering::Relaxed),
-        "rule": "states = byte strings executed on the real parsers: (a) the complete append-a-byte tree to depth 3 for the frame parsers and depth 2 (quick) / 3 (thorough) for each of the six MAC command sets; (b) MHDR(256) x FCtrl(256) x total length 0..=40 x 3 fillers; (b2) data MHDRs(5) x FCtrl(256) x total length 6..=300 and 511..513, 520, 767, 768, 1023, 1024, 1040 x 3 fillers, as is and with a MIC that verifies; (b3) well-formed JoinAccepts with every CFListType octet 0..=255 x 3 body fillers x DLSettings / RxDelay octets; (c) every CID 0..=255 x every truncation point 0..=max_len+2 x 3 fillers, alone, preceded by and followed by every defined command of the set; (d) variable-length commands with every status byte / every length; (e) the checked constructor of every payload type on every slice length 0..=max+3 (first byte 0..=255, 3 fillers; McGroupStatusAns: every status octet x 0..=28 bytes) and the field types of lorawan::types, ChannelMask::is_enabled with every index up to 24 past the mask and at the top of usize. transitions = append-a-byte edges of the tree part",
+        "rule": "states = byte strings executed on the real parsers: (a) the complete append-a-byte tree to depth 3 for the frame parsers and depth 2 (quick) / 3 (thorough) for each of the six MAC command sets; (b) MHDR(256) x FCtrl(256) x total length 0..=40 x 3 fillers; (b2) data MHDRs(5) x FCtrl(256) x total length 6..=300 and 511..513, 520, 767, 768, 1023, 1024, 1040 x 3 fillers, as is and with a MIC that verifies; (b3) well-formed JoinAccepts with every CFListType octet 0..=255 x 3 body fillers x DLSettings / RxDelay octets; (c) every CID 0..=255 x every truncation point 0..=max_len+2 x 3 fillers, alone, preceded by and followed by every defined command of the set; (c2b) every defined fixed-length command with each payload octet in turn taking every value (and pairs of octets from a boundary set) over three fillers; (d) variable-length commands with every status byte / every length; (e) the checked constructor of every payload type on every slice length 0..=max+3 (first byte 0..=255, 3 fillers; McGroupStatusAns: every status octet x 0..=28 bytes) and the field types of lorawan::types, ChannelMask::is_enabled with every index up to 24 past the mask and at the top of usize. transitions = append-a-byte edges of the tree part",
         "tree_depth_frames": depth_frame,
         "tree_depth_command_sets": depth_sets,
         "exhaustive": true,
